@@ -1,23 +1,23 @@
-\* complete alphabet incl. get/has, for -simulate
+\* two Contexts in one process: 2 operations (cleanup alphabet, 2 callables, + set/del of one name), end of run, new Context, 2 operations, end of run
 INIT Init
 NEXT Next
 CONSTANTS
-  OpsAt <- OpsSim
-  UNames = {1, 2}
-  Vals = {1, 2}
-  WithFailed = TRUE
-  WithRoot = TRUE
-  WithUseOr = TRUE
-  WithReads = TRUE
-  WithMode = TRUE
-  WithExec = TRUE
-  MaxIds = 3
+  OpsAt <- Ops2000
+  UNames = {1}
+  Vals = {1}
+  WithFailed = FALSE
+  WithRoot = FALSE
+  WithUseOr = FALSE
+  WithReads = FALSE
+  WithMode = FALSE
+  WithExec = FALSE
+  MaxIds = 2
   ArgModes = {0, 1}
   WithFixtures = TRUE
   WithAttrs = TRUE
-  NestSet <- NestFew
-  TwoRuns = FALSE
-  OpsB = 0
+  NestSet <- NestNone
+  TwoRuns = TRUE
+  OpsB = 2
 INVARIANT Visible
 INVARIANT Shadow
 INVARIANT DeleteLocal
